@@ -72,6 +72,20 @@ func rtCheck(cs rtCase) (class, detail string) {
 	if err != nil {
 		return "write-error", err.Error()
 	}
+	wants := make([]desc, len(cs.Msgs))
+	for i, m := range cs.Msgs {
+		wants[i] = m.desc()
+	}
+	return rtCheckWire(cs, wire, wants)
+}
+
+// rtCheckWire: the same with the wire image and the expected descriptions precomputed.
+func rtCheckWire(cs rtCase, wire []byte, wants []desc) (class, detail string) {
+	defer func() {
+		if e := recover(); e != nil {
+			class, detail = "panic", fmt.Sprint(e)
+		}
+	}()
 	if cs.Chunk.Family == "tap" {
 		frames, err := strictFrames(wire)
 		if err != nil {
@@ -82,20 +96,20 @@ func rtCheck(cs rtCase) (class, detail string) {
 		}
 		for i, f := range frames {
 			d, st := descOfBody(wire[f.BodyStart:f.End])
-			if st != bodyClean || d != cs.Msgs[i].desc() {
-				return "tap-body-differs", fmt.Sprintf("frame %d carries %s, written message was %s", i, clip(wire[f.BodyStart:f.End], 200), clip([]byte(marshal(cs.Msgs[i].desc())), 200))
+			if st != bodyClean || d != wants[i] {
+				return "tap-body-differs", fmt.Sprintf("frame %d carries %s, written message was %s", i, clip(wire[f.BodyStart:f.End], 200), clip([]byte(marshal(wants[i])), 200))
 			}
 		}
 		return "", ""
 	}
 	rd := newChunkReader(wire, cs.Chunk)
 	st := jsonrpc2.NewStream(rd)
-	for i, m := range cs.Msgs {
+	for i, want := range wants {
 		msg, _, err := st.Read(context.Background())
 		if err != nil {
 			return "read-error", fmt.Sprintf("message %d of %d: %v", i, len(cs.Msgs), err)
 		}
-		if got, want := descOfMessage(msg), m.desc(); got != want {
+		if got := descOfMessage(msg); got != want {
 			return "decoded-differs", fmt.Sprintf("message %d decoded as %s, written %s", i, clip([]byte(marshal(got)), 200), clip([]byte(marshal(want)), 200))
 		}
 	}
@@ -169,7 +183,7 @@ func genSequence(r *rand.Rand, big bool) []mspec {
 
 func (k *checker) roundTrip() {
 	c := k.c
-	nSeq := c.Pick(300, 12000)
+	nSeq := c.Pick(300, 4500)
 	type job struct {
 		i    int
 		seed int64
@@ -192,6 +206,10 @@ func (k *checker) roundTrip() {
 				k.add("roundtrip_messages", len(msgs))
 				k.add("roundtrip_wire_bytes", len(wire))
 				multi := len(wire) != len([]rune(string(wire)))
+				wants := make([]desc, len(msgs))
+				for i, m := range msgs {
+					wants[i] = m.desc()
+				}
 				chs := append([]chunking{{Name: "tap", Family: "tap"}}, chunkingsFor(wire, r)...)
 				for _, ch := range chs {
 					cs := rtCase{Msgs: msgs, Chunk: ch}
@@ -201,7 +219,7 @@ func (k *checker) roundTrip() {
 					if multi && (ch.Family == "cuts" || ch.Family == "fixed" || ch.Family == "random") {
 						c.NontrivialStr("rt", fmt.Sprint(j.seed), ch.Name, fmt.Sprint(ch.K))
 					}
-					class, detail := rtCheck(cs)
+					class, detail := rtCheckWire(cs, wire, wants)
 					if class == "" {
 						continue
 					}
@@ -410,7 +428,7 @@ func (k *checker) judgeMalformed(cases []malCase, tag string) {
 // (c)
 func (k *checker) concurrency() {
 	c := k.c
-	nSess := c.Pick(96, 6000)
+	nSess := c.Pick(360, 7200)
 	r := c.Rand("conc")
 	var specs []sessSpec
 	for i := 0; i < nSess; i++ {
